@@ -424,6 +424,10 @@ class DMRGEngine(IterativeSweeps):
 
         """
         super().post_run_cleanup()
+        if self.mixer is not None:
+            # The run stopped (e.g. `max_sweeps`) while the mixer was still enabled. `mixer_cleanup` has restored
+            # diagonal singular values, but the state still needs to be brought into canonical form.
+            self.mixer_deactivate()
         self._canonicalize(True)
         logger.info(f'{self.__class__.__name__} finished after {self.sweeps} sweeps, max chi={max(self.psi.chi)}')
         if (len(self.ortho_to_envs) > 0) and (self.sweep_stats['E'][-1] > -1e-8):
